@@ -201,6 +201,12 @@ class RunContext:
             (evdir / f'{self.prop}.json').write_text(json.dumps(ev, indent=1, sort_keys=True, ensure_ascii=False) + '\n')
         for k in known_hits.values():
             print(f"KNOWN-FINDING: property={self.prop} {k['signature']} :: {k.get('what', '')}")
+        if os.environ.get('VERIF_DEBUG'):
+            bysig: dict = {}
+            for v in unknown:
+                bysig.setdefault(v['signature'], []).append(v['detail'])
+            with open(f'/dev/shm/verif-debug-{self.prop}.json', 'w') as f:
+                json.dump({k: {'n': len(v), 'examples': v[:3]} for k, v in bysig.items()}, f, indent=1, ensure_ascii=False)
         rc = 0
         if unknown:
             rdir = replay_dir(self.prop)
